@@ -1723,6 +1723,29 @@ func generateScenarios(prop string, seed uint64, n int, adv bool) []*scenario {
 			out = append(out, sc)
 		case prop == "C04" && i%2 == 1:
 			out = append(out, g.adoptrace(i, s))
+		case prop == "C10" && i%16 == 6:
+			// a dying parent (held by somebody's finalizer) whose own finalizer an earlier sync has already taken off the
+			// live object, while the cache still shows it: the finalize hook answers finalized once more, the removal
+			// finds nothing to do on the live object, and no child is touched (one is missing and would be made again)
+			sc := g.basic("lifecycle", i, s)
+			for tries := 0; tries < 40 && (len(sc.Hook.Children) == 0 || sc.Hook.PlainOwnerRef || sc.hasFeature("selector-empty-content")); tries++ {
+				sc = g.basic("lifecycle", i, s)
+			}
+			sc.Ctl.Finalize, sc.Warmup, sc.Setup, sc.Ctl.SSA = true, true, nil, false
+			sc.Hook.FinalizedAlways, sc.Hook.FinalizedIfEmpty, sc.Hook.FinalizeChildren = true, false, sc.Hook.Children
+			p := sc.parentRef()
+			p.Op, p.Data = "deleting", J{"finalizers": A{"example.com/other"}}
+			sc.Setup = append(sc.Setup, p)
+			for _, ref := range sc.childRefs() {
+				ref.Op = "delete"
+				sc.Setup = append(sc.Setup, ref)
+				break
+			}
+			u := sc.parentRef()
+			u.Op = "unfinalize"
+			sc.Rounds = []roundSpec{{LateOps: []extOp{u}}, {}}
+			sc.Features = []string{"parent-deleted-foreign-finalizer", "own-finalizer-gone-after-cache"}
+			out = append(out, sc)
 		case prop == "C10" && i%16 == 2:
 			// the request that adds the finalizer keeps meeting conflicts
 			sc := g.basic("lifecycle", i, s)
